@@ -562,6 +562,53 @@ Definition render_spec (x : doutcome * list Z) : list Z :=
   | (Some (ret, rem), dump) => ret ++ [SEP] ++ dump ++ [SEP] ++ rem
   end.
 
+(* Aliasing pushes, [16; b; i] = push_back(buf[i]) and [17; b; i] = push_front(buf[i]) (the
+   argument is a reference to an element of the same buffer): the runner rewrites them into the
+   ordinary push of the value that element holds at that moment, so that the histories the theorems
+   quantify over (lists of ordinary operations) include them; what the correspondence then checks
+   is that the implementation treats an aliasing argument like any other. *)
+Definition ring_desugar (e : env) (op : list Z) : list Z :=
+  match op with
+  | [c; b; i] =>
+      if (c =? 16) || (c =? 17) then
+        match env_get_u e b with
+        | Some r => match index r i with
+                    | Some (Live v, _) => [c - 15; b; v]
+                    | _ => []
+                    end
+        | None => []
+        end
+      else op
+  | _ => op
+  end.
+
+Fixpoint ring_trace_d (vr : variant) (ow : bool) (e : env) (ops : list (list Z))
+  : list (outcome * list Z) :=
+  match ops with
+  | [] => []
+  | op :: rest => let '(e', o) := ring_step vr ow e (ring_desugar e op) in
+                  (o, dump_env e') :: ring_trace_d vr ow e' rest
+  end.
+
+Definition deque_desugar (e : denv) (op : list Z) : list Z :=
+  match op with
+  | [c; b; i] =>
+      if (c =? 16) || (c =? 17) then
+        match denv_get_u e b with
+        | Some d => if (0 <=? i) && (i <? Zlen (ditems d)) then [c - 15; b; nth (Z.to_nat i) (ditems d) 0] else []
+        | None => []
+        end
+      else op
+  | _ => op
+  end.
+
+Fixpoint deque_trace_d (ow : bool) (e : denv) (ops : list (list Z)) : list (doutcome * list Z) :=
+  match ops with
+  | [] => []
+  | op :: rest => let '(e', o) := deque_step ow e (deque_desugar e op) in
+                  (o, dump_denv e') :: deque_trace_d ow e' rest
+  end.
+
 (* header line: [overwrite; variant; elem] where variant 1 = the tree's code, 0 = pinned
    upstream; elem 1 = element type with observable lifetime and the events are printed;
    0 = plain integers (no events observable); 2 = lifetime-tracked elements but the events
@@ -570,14 +617,14 @@ Definition ring_run (case : list (list Z)) : list (list Z) :=
   match case with
   | [ow; v; el] :: ops =>
       [] :: map (render (el =? 1))
-                (ring_trace (if v =? 1 then fixed_variant else upstream_variant)
-                            (negb (ow =? 0)) env0 ops)
+                (ring_trace_d (if v =? 1 then fixed_variant else upstream_variant)
+                              (negb (ow =? 0)) env0 ops)
   | _ => [[PRE]]
   end.
 
 (* the specification run on the same case file (used to test theorem statements) *)
 Definition ring_spec_run (case : list (list Z)) : list (list Z) :=
   match case with
-  | [ow; v; el] :: ops => [] :: map render_spec (deque_trace (negb (ow =? 0)) denv0 ops)
+  | [ow; v; el] :: ops => [] :: map render_spec (deque_trace_d (negb (ow =? 0)) denv0 ops)
   | _ => [[PRE]]
   end.
